@@ -94,6 +94,31 @@ def resolveMethod (t : TConf) (c : ClientForm) (r : Req) : Except Reject MethodC
       else .ok m
     else .ok m
 
+/-- What `validate` negotiates for the target leg. -/
+structure Negotiated where
+  sform : ServerForm
+  scodec : Bytes
+  cReqComp : Option Bytes
+  sReqComp : Option Bytes
+  deriving Repr, DecidableEq
+
+/-- The server protocol: the client's if the service accepts it, else the first accepted protocol in
+    order of preference (`allProtocols`). -/
+def pickProto (m : MethodConf) (c : ClientForm) : Proto :=
+  if m.protocols.contains c.proto then c.proto
+  else (allProtocols.find? (fun p => m.protocols.contains p)).getD .connect
+
+/-- The negotiation block of `operation.validate`: target protocol, codec and request compression
+    for client form `c`, client codec `codec` and (normalised) client compression `comp`.
+    `none` = the target would be REST but the method has no REST binding (404). -/
+def negotiate (m : MethodConf) (c : ClientForm) (codec comp : Bytes) : Option Negotiated :=
+  let sproto := pickProto m c
+  if sproto == .rest then none else
+  some { sform := sproto.serverForm m.streamType,
+         scodec := if m.codecs.contains codec then codec else m.codecs.headD [],
+         cReqComp := if comp.isEmpty then none else some comp,
+         sReqComp := if !comp.isEmpty && m.compressors.contains comp then some comp else none }
+
 /-- `operation.validate`. -/
 def validate (w : World) (t : TConf) (r : Req) : Except Reject Op :=
   match classifyRequest r with
@@ -116,17 +141,12 @@ def validate (w : World) (t : TConf) (r : Req) : Except Reject Op :=
         if !comp.isEmpty && !w.knownCompression comp then .error (.status 415 none)
         else if !w.knownCodec rm.codec then .error (.status 415 none)
         else
-          let sproto : Proto :=
-            if m.protocols.contains c.proto then c.proto
-            else (allProtocols.find? (fun p => m.protocols.contains p)).getD .connect
-          if sproto == .rest then .error .notFound else
-          let sform := sproto.serverForm m.streamType
-          let scodec := if m.codecs.contains rm.codec then rm.codec else m.codecs.headD []
-          let cReqComp := if comp.isEmpty then none else some comp
-          let sReqComp := if !comp.isEmpty && m.compressors.contains comp then some comp else none
-          .ok { conf := m, cform := c, sform := sform, reqMeta := rm, ccodec := rm.codec, scodec := scodec,
-                cReqComp := cReqComp, sReqComp := sReqComp, headers := h, contentLen := r.contentLength,
-                query := r.query, reqMethod := r.method }
+          match negotiate m c rm.codec comp with
+          | none => .error .notFound
+          | some n =>
+            .ok { conf := m, cform := c, sform := n.sform, reqMeta := rm, ccodec := rm.codec, scodec := n.scodec,
+                  cReqComp := n.cReqComp, sReqComp := n.sReqComp, headers := h, contentLen := r.contentLength,
+                  query := r.query, reqMethod := r.method }
 
 /-- The "no transformation needed" test of `ServeHTTP`. -/
 def Op.passThrough (o : Op) : Bool :=
